@@ -1,5 +1,5 @@
 (* Correspondence suites for C15: name -> arguments -> observation text. *)
-Require Import Bytes Names.
+Require Import Bytes Names Event SourceEq.
 
 Definition arg1 (args : list str) : str := match args with a :: _ => a | [] => [] end.
 
@@ -8,4 +8,14 @@ Definition run_C15 (suite : str) (args : list str) : option str :=
   else if streqb suite (bs "names.user") then Some (show_bool (is_valid_user (arg1 args)))
   else if streqb suite (bs "names.channel") then Some (show_bool (is_valid_channel (arg1 args)))
   else if streqb suite (bs "names.fold") then Some (hex (to_rfc1459 (arg1 args)))
+  else if streqb suite (bs "names.source") then
+    (* args: nil1 name1 ident1 host1 nil2 name2 ident2 host2 ("1" = nil *Source) *)
+    match args with
+    | [n1; a1; i1; h1; n2; a2; i2; h2] =>
+        let mk (n a i h : str) := if streqb n (bs "1") then None else Some (mkWSource a i h) in
+        let x := mk n1 a1 i1 h1 in let y := mk n2 a2 i2 h2 in
+        let id o := match o with Some v => hex (source_id v) | None => bs "nil" end in
+        Some (id x ++ bs " " ++ id y ++ bs " " ++ show_bool (source_equals x y))
+    | _ => Some (bs "?args")
+    end
   else None.
